@@ -84,6 +84,15 @@ def run_subprocess(argv, cwd, stdin=""):
     return r.returncode, r.stdout, r.stderr
 
 
+def run_subprocess_bytes(argv, cwd, stdin=b""):
+    """Like run_subprocess, but stdin / stdout are bytes on real pipes (UTF-8 mode), so that what the command line does to the
+    byte stream itself (BOM, CRLF, lone CR) is observed."""
+    env = dict(os.environ, PYTHONPATH=os.path.join(core.REPO, "src"), PYTHONHASHSEED="0", PYTHONUTF8="1", LANG="C.UTF-8")
+    env.pop("PYTHONIOENCODING", None)
+    r = subprocess.run([sys.executable, "-m", "flowmark.cli"] + list(argv), cwd=cwd, input=stdin, capture_output=True, env=env, timeout=120)
+    return r.returncode, r.stdout, r.stderr.decode("utf8", "replace")
+
+
 def cleanup():
     global _ROOT
     if _ROOT and os.path.isdir(_ROOT):
